@@ -99,10 +99,11 @@ def validSeg (et : EType) : Seg → Bool
   | .text _ => true
   | .ph f args => validPh et f args
 
-def validate (et : EType) (toks : List Tok) : Bool :=
-  balanced 0 toks && toks.all fun t => match t with
-    | .run segs => segs.all (validSeg et)
-    | _ => true
+def tokValid (et : EType) : Tok → Bool
+  | .run segs => segs.all (validSeg et)
+  | _ => true
+
+def validate (et : EType) (toks : List Tok) : Bool := balanced 0 toks && toks.all (tokValid et)
 
 /-! ### evaluation -/
 
